@@ -593,11 +593,18 @@ func checkCase(c Case) error {
 		}},
 	}
 	for _, op := range fsops {
+		// write operations meet a variable that already holds an (older, longer) value in every other case
+		old := append(append([]byte{}, value[:4]...), bytes.Repeat([]byte("the value the variable held before. "), 4+len(value)/30)...)
+		prepop := op.write && len(c.Payload)%2 == 0
+		var lastMem afero.Fs
 		mk := func() *recfs.FS {
 			mem := afero.NewMemMapFs()
 			if !op.write {
 				afero.WriteFile(mem, name, value, 0644)
+			} else if prepop {
+				afero.WriteFile(mem, name, old, 0644)
 			}
+			lastMem = mem
 			return recfs.New(mem, "MemMapFS")
 		}
 		base := mk()
@@ -661,6 +668,14 @@ func checkCase(c Case) error {
 				}
 				if !okv {
 					return fmt.Errorf("%s: %s (call %d of %d) failed and a wrong value was returned together with the error", op.name, at.Op, k, n)
+				}
+				if prepop && strings.HasPrefix(kind, "error") && (at.Op == "Fs.OpenFile" || at.Op == "File.Write") {
+					// the open or the (one) write call failed without taking a byte: the failed update has written nothing,
+					// so the variable still holds what it held
+					hx.Class("failed_write_over_an_existing_value")
+					if now, rerr := afero.ReadFile(lastMem, name); rerr != nil || !bytes.Equal(now, old) {
+						return fmt.Errorf("%s: %s (call %d of %d) failed with kind %q; the variable held %d bytes before and holds %d after the failed operation (read error: %v)", op.name, at.Op, k, n, kind, len(old), len(now), rerr)
+					}
 				}
 			}
 		}
